@@ -1655,7 +1655,7 @@ func c12AddedKey(p c12Path, c *c12Case, col int) string {
 
 // ---------------------------------------------------------------- the check
 
-const c12Rule = "random source schemas (required/optional/repeated leaves of 8 physical kinds, groups, LIST groups, depth <= 4, <= 10 leaves, field order kept by an ordered group node) x random targets (pure permutation at every depth / delete + permute at any depth, then one of: nothing / add optional, required, repeated leaves and groups incl. inside repeated groups and lists / required->optional / optional->required / an incompatible change) x random rows shredded by the harness reference shredder x 11 library paths (Convert+conversion.Convert, ConvertRowGroup rows and column chunks - every chunk also re-read through Page.Slice at random row bounds and after Pages().SeekToRow(k) -, NewReader(schema), NewRowGroupReader(schema), NewGenericReader[any](schema), NewGenericRowGroupReader[any](schema) over a file row group and over a Buffer, CopyRows into a writer, WriteRowGroup of the converted row group, MergeRowGroups with a schema) + 5 struct pairs through Read[B], NewGenericReader[B], NewGenericRowGroupReader[B], Reader.Read(&B) and Reader.Read with the target type drawn per call + sorted sources (2-3 declared sorting columns, asc/desc, buffers and files) x targets dropping every subset of the sorting columns (declared order of the converted row group and of the merge must be a true order of the rows) + MergeRowGroups(schema, sorting) over two sorted files with small pages whose key ranges overlap in part (lone stretches > 1024 rows) read as rows, through CopyRows and WriteRowGroup; expected = reference shred of the projected value against the target schema; L2: conversion.Convert vs the Lean mirror convertRow, the harness projection vs the Lean spec, EqualNodes/SameNodes vs equalN/sameN, Reader.Read histories vs Rd.run; every library call runs in a worker subprocess (address-space limit, recover, timeout): a panic, fatal error or hang is an L1 failure of that case; non-trivial = the target differs from the source and a shared optional/repeated column holds both nulls and values"
+const c12Rule = "random source schemas (required/optional/repeated leaves of 8 physical kinds, groups, LIST groups, depth <= 4, <= 10 leaves, field order kept by an ordered group node) x random targets (pure permutation at every depth / delete + permute at any depth, then one of: nothing / add optional, required, repeated leaves and groups incl. inside repeated groups and lists / required->optional / optional->required / an incompatible change) x random rows shredded by the harness reference shredder x 15 library paths (Convert+conversion.Convert, ConvertRowGroup rows and column chunks - every chunk also re-read through Page.Slice at random row bounds and after Pages().SeekToRow(k) -, NewReader(schema), NewRowGroupReader(schema), NewGenericReader[any](schema), NewGenericRowGroupReader[any](schema) over a file row group and over a Buffer, CopyRows into a writer, WriteRowGroup of the converted row group, MergeRowGroups with a schema; and a random composition of views - MergeRowGroups(schema) / MultiRowGroup / ConvertRowGroup / row ranges over files and Buffers under the source and under the target schema - read through Rows(), NewGenericRowGroupReader[any], CopyRows, WriteRowGroup) + 5 struct pairs through Read[B], NewGenericReader[B], NewGenericRowGroupReader[B], Reader.Read(&B) and Reader.Read with the target type drawn per call + sorted sources (2-3 declared sorting columns, asc/desc, buffers and files) x targets dropping every subset of the sorting columns (declared order of the converted row group and of the merge must be a true order of the rows) + MergeRowGroups(schema, sorting) over two sorted files with small pages whose key ranges overlap in part (lone stretches > 1024 rows; targets delete/permute, then add / widen / narrow) read as rows, through CopyRows and WriteRowGroup; expected = reference shred of the projected value against the target schema; L2: conversion.Convert vs the Lean mirror convertRow, the harness projection vs the Lean spec, EqualNodes/SameNodes vs equalN/sameN, Reader.Read histories vs Rd.run, rowGroupReadsChunksInOrder on every node of every composed view vs inOrder; every library call runs in a worker subprocess (address-space limit, recover, timeout): a panic, fatal error or hang is an L1 failure of that case; non-trivial = the target differs from the source and a shared optional/repeated column holds both nulls and values"
 
 // RunC12 is the parent: it never calls the library itself. The cases run in worker
 // subprocesses (`pqcheck -worker c12 ...`); when a worker dies (fatal error: out of memory,
@@ -1663,7 +1663,7 @@ const c12Rule = "random source schemas (required/optional/repeated leaves of 8 p
 // becomes an L1 failure and a new worker continues behind it.
 func RunC12(ctx *core.Ctx) {
 	ctx.SetRule(c12Rule)
-	npairs := ctx.Scale(2000, 50000)
+	npairs := ctx.Scale(2000, 40000)
 	shards := 16
 	var wg sync.WaitGroup
 	for w := 0; w < shards; w++ {
@@ -3415,6 +3415,10 @@ func c12BigMergeCase(ctx *core.Ctx, r *rand.Rand, at func(path, mode string, det
 			}
 			if addedKey != "" {
 				k = addedKey
+			}
+			if strings.Contains(err.Error(), "FIXED_LEN_BYTE_ARRAY") && (tg.mode == "add" || tg.mode == "narrow") {
+				// the zero value synthesised for a required FIXED_LEN_BYTE_ARRAY column has no bytes
+				k = "fixed-len-zero-value-is-empty:" + tg.mode
 			}
 			ctx.Fail("L1", k, "path "+p.name+": "+err.Error(), det)
 			continue
